@@ -70,17 +70,18 @@ func VerifHarness_C05_node() {
 		}
 		return false
 	}
-	// arrivals in index order, from trusted or untrusted sources, then optional delay check
+	// arrivals in index order, from an untrusted peer, the trusted peer or submitted locally (which
+	// enters already marked safe, as Node.HandleTx queues it); the delay checker may run after each
 	for _, e := range es {
-		trusted := verifrt.Choose("tx.trusted", 2) == 1
-		perr := node.processUnconfirmedTx(ctx, handlers.TxData{Msg: e.tx, Trusted: trusted, ConfirmedHeight: -1})
+		src := verifrt.Choose("tx.source", 3) // 0 untrusted, 1 trusted, 2 local
+		perr := node.processUnconfirmedTx(ctx, handlers.TxData{Msg: e.tx, Trusted: src >= 1, Safe: src == 2, ConfirmedHeight: -1})
 		verifrt.Sig("arrival", "err")
 		verifrt.Assert(perr == nil, "C05.node.processed")
 		e.seen = true
-	}
-	if verifrt.Choose("delay-check", 2) == 1 {
-		verifrt.Advance(3 * time.Second)
-		c05DelayCheck(ctx, node)
+		if verifrt.Choose("delay-check", 2) == 1 {
+			verifrt.Advance(3 * time.Second)
+			c05DelayCheck(ctx, node)
+		}
 	}
 	// one of them is then confirmed in a block (or none)
 	if c := verifrt.Choose("confirm", nTx+1); c > 0 {
